@@ -8,9 +8,9 @@ EXPLANATION = (
     "edge of `config.sort_requires.enabled`; no other call in the library resolves to a sort/reverse/swap/rotate/"
     "dedup/retain on a collection whose element type mentions Stmt (with the option off, statement order never "
     "changes); (stability) the sort callee is a stable slice sort; (trivia) the group's leading trivia is taken from "
-    "index 0 before the sort and restored to index 0 after it; (R-SKIP d) the Context used to ask should_format_node "
+    "index 0 before the sort and restored to index 0 after it; (R-GROUP) a new group is started exactly on: no previous part, previous part not a require group, different kind, or line distance > 1; (R-SORTGUARD) the sort is reached only if every member is Normal; (R-SKIP d) the Context used to ask should_format_node "
     "for group members is threaded through check_toggle_formatting; (R-GROUPFILL) groups only receive "
-    "LocalAssignment statements. Not decided: grouping by line distance, the permutation property itself.")
+    "LocalAssignment statements. Not decided: the permutation property itself (that the output is the stable name-ordered permutation).")
 ASSUMPTIONS = ["slice::sort_by_key is stable (std contract)", "rustc MIR and Instance::try_resolve are trusted"]
 
 REORDER = re.compile(r"::(sort|sort_by|sort_by_key|sort_by_cached_key|sort_unstable|sort_unstable_by|"
@@ -95,9 +95,93 @@ def rule_sort(ctx, prop):
     return rep
 
 
+def rule_group(ctx, prop):
+    """R-GROUP: a new require group is started iff there is no previous part, the previous part is not a require
+    group, its kind differs, or more than one line separates the two statements."""
+    rep = Report(prop, "R-GROUP", "partition_nodes_into_groups starts a new group on: no previous part | previous part is "
+                                  "Other | different kind | line distance > 1; requires join a group only otherwise")
+    for cfg, prog in ctx.programs.items():
+        f = prog.fn("stylua_lib", "sort_requires::partition_nodes_into_groups")
+        if not rep.anchor(f is not None, "partition_nodes_into_groups", cfg):
+            continue
+        # the bool whose true edge dominates the construction of a new RequiresGroup
+        aggs = [(b, s) for b, si_, s in f.stmts() if s["k"] == "assign" and s["rv"]["k"] == "agg" and
+                s["rv"].get("variant") == "RequiresGroup"]
+        if not rep.anchor(len(aggs) == 1, "single RequiresGroup construction", cfg):
+            continue
+        ab = aggs[0][0]
+        flag = None
+        for sb in f.dominators().get(ab, ()):
+            t = f.blocks[sb]["term"]
+            if t["k"] == "switch" and t["ty"] == "bool" and f.dominates(t["otherwise"], ab) and t["otherwise"] != sb:
+                l = op_local(t["on"])
+                ds = f.defs().get(l, [])
+                while len(ds) == 1 and ds[0][1] != "term" and ds[0][2]["rv"]["k"] == "use" and not is_const(ds[0][2]["rv"]["o"]) \
+                        and not op_place(ds[0][2]["rv"]["o"]).get("p"):
+                    l = op_place(ds[0][2]["rv"]["o"])["l"]
+                    ds = f.defs().get(l, [])
+                if len(ds) >= 3:
+                    flag = (l, ds)
+        if not rep.anchor(flag is not None, "the create-new-group flag", cfg):
+            continue
+        l, ds = flag
+        reasons = set()
+        for dbi, dsi, s in ds:
+            if dsi == "term":
+                reasons.add("call:" + callee(s).split("::")[-1])
+                continue
+            rv = s["rv"]
+            if rv["k"] == "use" and is_const(rv["o"]) and rv["o"].get("v") is True:
+                if guarded_by_variant(f, dbi, "option::Option", "None"):
+                    reasons.add("no-previous-part")
+                elif guarded_by_variant(f, dbi, "BlockPartition", "Other"):
+                    reasons.add("previous-is-Other")
+                else:
+                    # under the true edge of `other_kind != expression_kind`
+                    ok = False
+                    for sb in f.dominators().get(dbi, ()):
+                        tt = f.blocks[sb]["term"]
+                        if tt["k"] == "switch" and tt["ty"] == "bool" and f.dominates(tt["otherwise"], dbi):
+                            pr = provenance(f, tt["on"], through=None)
+                            for r in pr:
+                                if r[0] == "call" and r[1].endswith("::ne") and "GroupKind" in (f.blocks[r[2]]["term"].get("fn") or ""):
+                                    ok = True
+                    reasons.add("kind-differs" if ok else "true:unexplained")
+            elif rv["k"] == "use" and is_const(rv["o"]) and rv["o"].get("v") is False:
+                reasons.add("false-constant")
+            elif rv["k"] == "binop":
+                b = rv["b"]
+                if rv["op"] == "Gt" and is_const(b) and b.get("v") == 1:
+                    # lhs = current_line - previous_line
+                    pr = provenance(f, rv["a"], through=None)
+                    sub = any(r[0] == "op" and r[1].startswith("Sub") for r in pr)
+                    lines = sum(1 for r in pr if r[0] == "call" and r[1].endswith("Position::line"))
+                    reasons.add("line-distance>1" if sub and lines == 2 else "distance:unexpected-operands")
+                else:
+                    reasons.add(f"compare:{rv['op']}:{b.get('v') if is_const(b) else '?'}")
+            else:
+                reasons.add("other:" + rv["k"])
+        want = {"no-previous-part", "previous-is-Other", "kind-differs", "line-distance>1"}
+        ok = reasons == want
+        rep.inst(f"{f.key} new-group conditions", {"found": sorted(reasons)}, cfg, ok=ok)
+        if not ok:
+            rep.violation(f"{f.key} new-group-conditions {sorted(reasons)}",
+                          f"a new require group is started on {sorted(reasons)}; documented: {sorted(want)} - groups "
+                          f"separated by a blank line, another statement or a different kind could merge (or adjacent "
+                          f"requires be split)", f.loc(), cfg)
+        # a non-require statement closes the current group: the fall-through path pushes BlockPartition::Other
+        others = [(b, s) for b, si_, s in f.stmts() if s["k"] == "assign" and s["rv"]["k"] == "agg" and s["rv"].get("variant") == "Other"]
+        rep.inst(f"{f.key} non-require statements open an Other part", {"sites": len(others)}, cfg, ok=len(others) >= 1)
+        if not others:
+            rep.violation(f"{f.key} no-Other-part", "non-require statements no longer separate require groups", f.loc(), cfg)
+    return rep
+
+
 def run(ctx):
     import r_exh
     sub = Report("C12", "R-GROUPFILL", "require groups only receive LocalAssignment statements")
     for cfg, prog in ctx.programs.items():
         r_exh._groupfill(prog, sub, cfg)
-    return [rule_sort(ctx, "C12"), r_skip.rule_toggle(ctx, "C12"), r_skip.rule_sort_guard(ctx, "C12"), sub]
+    return [rule_sort(ctx, "C12"), rule_group(ctx, "C12"), r_skip.rule_toggle(ctx, "C12"), r_skip.rule_sort_guard(ctx, "C12"), sub]
+
+
